@@ -13,6 +13,7 @@ import (
 	"context"
 	"fmt"
 	"path"
+	"strings"
 	"sync"
 	"testing"
 	"time"
@@ -117,6 +118,19 @@ func genCase(t *rapid.T) Case {
 			}
 			c.Ops = append(c.Ops, op)
 		}
+	}
+	if vkit.Uni(t, 8, "corruptEnd") == 0 {
+		// the stored bound becomes unreadable (not 8 bytes: a foreign writer, a truncated value); the tree
+		// stops allocating for good once the window in memory is used up. Whatever comes back afterwards,
+		// from the running instance, a restarted one or another member, must still be a fresh id. Ends the case.
+		j := inst("i")
+		c.Ops = append(c.Ops, Op{K: "corrupt", N: vkit.PickU(t, []int{0, 1, 7, 9, 20}, "clen")},
+			Op{K: "alloc", I: j, N: vkit.PickU(t, []int{1, 999, 1001, 2500}, "nc")})
+		if rapid.IntRange(0, 1).Draw(t, "ccrash") == 0 {
+			c.Ops = append(c.Ops, Op{K: "crash", I: j})
+		}
+		k := inst("i2")
+		c.Ops = append(c.Ops, Op{K: "leader", J: k}, Op{K: "rebase", I: k}, Op{K: "alloc", I: k, N: vkit.PickU(t, []int{1, 7, 1001}, "nc2")})
 	}
 	return c
 }
@@ -303,6 +317,7 @@ func runCase(c Case) (vkit.Info, error) {
 		insts = append(insts, &instance{slot: i, member: m, alloc: id.NewAllocator(sl[i].client, root, m)})
 	}
 	returned := map[int]bool{}
+	corrupt, corrupted := "", false // the unreadable value written over the stored bound, if any
 	check := func(step int, what string) error {
 		w.mu.Lock()
 		e := w.err
@@ -316,6 +331,10 @@ func runCase(c Case) (vkit.Info, error) {
 		var real uint64
 		if ok {
 			real, _ = typeutil.BytesToUint64([]byte(val))
+		}
+		if corrupted && ok && val == corrupt {
+			// the unreadable value is still there: nothing was stored over it
+			return nil
 		}
 		if real != stored {
 			return fmt.Errorf("op %d (%s): etcd holds window end %d but the applied-txn log says %d", step, what, real, stored)
@@ -358,7 +377,7 @@ func runCase(c Case) (vkit.Info, error) {
 					if leader != in.member && after != before {
 						return info, fmt.Errorf("op %d alloc #%d by %s failed (%v) but the stored window moved %d -> %d while leader record is %q", step, k, who, aerr, before, after, leader)
 					}
-					if leader == in.member && fk == "" {
+					if leader == in.member && fk == "" && !corrupted {
 						// sequential, no fault, sole instance of the recorded leader: the extension cannot lose a race
 						return info, fmt.Errorf("op %d alloc #%d by the recorded leader %s failed without any injected fault: %v", step, k, who, aerr)
 					}
@@ -394,6 +413,14 @@ func runCase(c Case) (vkit.Info, error) {
 				}
 			}
 			returned[op.I] = true
+		case "corrupt":
+			corrupt, corrupted = strings.Repeat("x", op.N), true
+			if err := f.PutRaw(w.allocKey, corrupt); err != nil {
+				info.Inconclusive = true
+				return info, nil
+			}
+			info.Class("bound-unreadable")
+			continue
 		case "rebase":
 			w.mu.Lock()
 			leader := w.leader
